@@ -31,15 +31,17 @@ import (
 )
 
 type HBCase struct {
-	Stream     bool   `json:"stream"`      // client-streaming upload
-	UseHelper  bool   `json:"use_helper"`  // streaming: handler calls larking.AsHTTPBodyReader instead of RecvMsg
-	Type       string `json:"type"`        // captured by {file.content_type=*/*}, e.g. image/png
-	Name       string `json:"name"`        // captured by {name}
-	ReqType    string `json:"req_type"`    // the request's Content-Type header ("" = none)
-	QueryType  string `json:"query_type"`  // ?file.content_type=... ("" = absent)
-	QueryName  string `json:"query_name"`  // ?name=... ("" = absent)
-	QueryFirst bool   `json:"query_first"` // order of the two query keys
-	Data       []byte `json:"data"`
+	Stream      bool   `json:"stream"`      // client-streaming upload
+	UseHelper   bool   `json:"use_helper"`  // streaming: handler calls larking.AsHTTPBodyReader instead of RecvMsg
+	Type        string `json:"type"`        // captured by {file.content_type=*/*}, e.g. image/png
+	Name        string `json:"name"`        // captured by {name}
+	ReqType     string `json:"req_type"`    // the request's Content-Type header ("" = none)
+	QueryType   string `json:"query_type"`  // ?file.content_type=... ("" = absent)
+	QueryName   string `json:"query_name"`  // ?name=... ("" = absent)
+	QueryFirst  bool   `json:"query_first"` // order of the two query keys
+	Data        []byte `json:"data"`
+	Bidi        bool   `json:"bidi"`         // (with Stream) the method also streams its reply, a google.api.HttpBody
+	WriterFirst bool   `json:"writer_first"` // (with Bidi) the handler opens larking.AsHTTPBodyWriter before it receives its first message
 }
 
 var (
@@ -55,6 +57,7 @@ func hbTheWorld() *dyn.World {
 		hbWorld = uni.WorldWith(dyn.Svc("C7HB",
 			dyn.MethodSpec{Name: "Put", In: ".un.UploadReq", Out: ".un.UploadReq", Rule: rule("/hb/u/{file.content_type=*/*}/{name}")},
 			dyn.MethodSpec{Name: "PutS", In: ".un.UploadReq", Out: ".un.UploadReq", ClientStream: true, Rule: rule("/hb/s/{file.content_type=*/*}/{name}")},
+			dyn.MethodSpec{Name: "PutB", In: ".un.UploadReq", Out: ".google.api.HttpBody", ClientStream: true, ServerStream: true, Rule: rule("/hb/b/{file.content_type=*/*}/{name}")},
 		))
 	})
 	return hbWorld
@@ -78,6 +81,17 @@ func CheckHB(c HBCase) ([]evid.Violation, bool) {
 		return dynamicpb.NewMessage(md), nil
 	}, func(full string, in, out protoreflect.MessageDescriptor, ss grpc.ServerStream) error {
 		first := dynamicpb.NewMessage(in)
+		var wr io.Writer
+		if c.WriterFirst {
+			// a legal order on a bidi stream: the reply is opened before the first request message is read
+			head := dynamicpb.NewMessage(out)
+			head.Set(out.Fields().ByName("content_type"), protoreflect.ValueOfString("text/x-c7"))
+			var err error
+			if wr, err = larking.AsHTTPBodyWriter(ss, head); err != nil {
+				herr = err
+				return err
+			}
+		}
 		if c.UseHelper {
 			rd, err := larking.AsHTTPBodyReader(ss, first)
 			if err != nil {
@@ -98,6 +112,10 @@ func CheckHB(c HBCase) ([]evid.Violation, bool) {
 				}
 			}
 		}
+		if wr != nil {
+			_, err := wr.Write([]byte("done"))
+			return err
+		}
 		return ss.SendMsg(dynamicpb.NewMessage(out))
 	})
 	mux, err := larking.NewMux(larking.FilesOption(w.Files))
@@ -110,6 +128,9 @@ func CheckHB(c HBCase) ([]evid.Violation, bool) {
 	path := "/hb/u/"
 	if c.Stream {
 		path = "/hb/s/"
+	}
+	if c.Stream && c.Bidi {
+		path = "/hb/b/"
 	}
 	path += c.Type + "/" + c.Name
 	var q []string
@@ -173,6 +194,8 @@ func TestPropHTTPBody(t *testing.T) {
 			Data:       rapid.SliceOfN(rapid.Byte(), 0, 40).Draw(t, "data"),
 		}
 		c.UseHelper = c.Stream && rapid.Bool().Draw(t, "helper")
+		c.Bidi = c.Stream && rapid.IntRange(0, 2).Draw(t, "bidi") == 0
+		c.WriterFirst = c.Bidi && rapid.Bool().Draw(t, "writerFirst")
 		if rapid.Bool().Draw(t, "qType") {
 			c.QueryType = rapid.SampledFrom([]string{"application/evil", "text/html", "a/b"}).Draw(t, "queryType")
 		}
@@ -182,11 +205,14 @@ func TestPropHTTPBody(t *testing.T) {
 		vs, delivered := CheckHB(c)
 		key := ""
 		if delivered && (c.ReqType != "" && c.ReqType != c.Type || c.QueryType != "" || c.QueryName != "") {
-			key = fmt.Sprintf("hb|%v|%v|%s|%v|%v|%v", c.Stream, c.UseHelper, c.ReqType, c.QueryType != "", c.QueryName != "", c.QueryFirst)
+			key = fmt.Sprintf("hb|%v|%v|%s|%v|%v|%v|%v|%v", c.Stream, c.UseHelper, c.ReqType, c.QueryType != "", c.QueryName != "", c.QueryFirst, c.Bidi, c.WriterFirst)
 		}
 		cl := []string{"httpbody-upload"}
 		if c.UseHelper {
 			cl = append(cl, "httpbody-upload:AsHTTPBodyReader")
+		}
+		if c.WriterFirst {
+			cl = append(cl, "httpbody-upload:AsHTTPBodyWriter-before-first-receive")
 		}
 		if delivered {
 			cl = append(cl, "httpbody-upload:delivered")
